@@ -287,7 +287,9 @@ fn parse_at_rule(
                 while let Ok(peek) = input.peek() {
                     match &*peek {
                         Token::Function(x) => {
-                            let xs: &str = &x;
+                            // (function names are ASCII case-insensitive)
+                            let xs = x.to_ascii_lowercase();
+                            let xs = xs.as_str();
                             if !matches!(xs, "layer" | "supports") {
                                 ss.add_warning(
                                     error::ParseErrorKind::UnexpectedCharacter,
@@ -315,7 +317,9 @@ fn parse_at_rule(
                             let close = ss.append_nested_block(st, input);
                             close_stack.push(close);
                         }
-                        Token::Ident(x) if &**x == "layer" && close_stack.is_empty() => {
+                        Token::Ident(x)
+                            if x.eq_ignore_ascii_case("layer") && close_stack.is_empty() =>
+                        {
                             // the `layer` keyword imports into an anonymous layer
                             input.next().ok();
                             let st = StepToken::wrap(Token::AtKeyword(x.clone()), peek.position);
